@@ -10,3 +10,23 @@ impl<'a> FrameDecoder<'a> {
         ensures r is Ok ==> final(buf)@ == old(buf)@ + snap_decode(old(self).src@)
     { unimplemented!() }
 }
+
+// ASSUMED (A-snap): snap::write::FrameEncoder over a Vec: what `into_inner` returns decodes
+// (snap_decode) to the bytes written.
+pub struct FrameEncoder { pub sink: Vec<u8>, pub written: Ghost<Seq<u8>> }
+impl FrameEncoder {
+    #[verifier::external_body]
+    pub fn new(sink: Vec<u8>) -> (r: Self) ensures r.written@ == Seq::<u8>::empty() { unimplemented!() }
+    #[verifier::external_body]
+    pub fn write_all(&mut self, buf: &[u8]) -> (r: Result<(), std::io::Error>)
+        ensures r is Ok ==> final(self).written@ == old(self).written@ + buf@
+    { unimplemented!() }
+    #[verifier::external_body]
+    pub fn flush(&mut self) -> (r: Result<(), std::io::Error>) ensures final(self).written@ == old(self).written@ { unimplemented!() }
+    #[verifier::external_body]
+    pub fn into_inner(self) -> (r: Result<Vec<u8>, VxIntoInnerError>)
+        ensures r is Ok, r matches Ok(v) ==> snap_decode(v@) == self.written@   // (an in-memory sink cannot fail)
+    { unimplemented!() }
+}
+#[derive(Debug)]
+pub struct VxIntoInnerError {}
